@@ -129,7 +129,8 @@ def run(res, tier, seed, shard, nshards):
                     for mult in (1, 2, 3):
                         k += 1
                         if (k + ji) % nshards == shard:
-                            one(res, W, st, call, list(range(1, n)), {pos: mult}, None, (name, "timeout1"))
+                            # every fourth run after the client's own send_close(): it keeps receiving, timeouts are as harmless as before
+                            one(res, W, st, call, list(range(1, n)), {pos: mult}, None, (name, "timeout1" + ("-halfclosed" if k % 4 == 0 else "")), half_closed=(k % 4 == 0))
                 if tier == "thorough":
                     for a, b in itertools.combinations(range(0, n), 2):
                         k += 1
@@ -141,7 +142,7 @@ def run(res, tier, seed, shard, nshards):
                     if (k + ji) % nshards == shard:
                         cuts = sorted({rng.randrange(1, n) for _ in range(3)})
                         plan = {rng.randrange(0, len(cuts) + 1): rng.randrange(1, 4) for _ in range(2)}
-                        one(res, W, st, call, cuts, plan, None, (name, "timeout-rand"))
+                        one(res, W, st, call, cuts, plan, None, (name, "timeout-rand" + ("-halfclosed" if k % 2 else "")), half_closed=bool(k % 2))
             elif job[0] == "nonblocking":
                 # socket in non-blocking mode (timeout 0): the stream arrives in two or three instalments; a read that finds
                 # nothing raises the transport's would-block error and is simply repeated later
@@ -244,6 +245,11 @@ def run(res, tier, seed, shard, nshards):
 
     with H.ambient((seed, shard, "C03"), res):
         H.in_sim(scen, watchdog=3000)
+    # two connections read by two threads, both descriptors non-blocking at the OS level (every read that finds nothing goes through
+    # the would-block branch and waits there): what one connection delivers does not depend on the other's traffic
+    if shard == 2 % nshards:
+        for i in range(12 if tier == "quick" else 200):
+            two_connections_case(res, W, random.Random((seed, i).__repr__()), i)
     if shard == 0:
         real_tls_coalescing(res, W)
 
@@ -251,7 +257,68 @@ def run(res, tier, seed, shard, nshards):
 _pred_cache = {}
 
 
-def one(res, W, stream, call, cuts, tplan, head_cuts, tag, eagain=None, pauses=False, tls=False, high_fd=False):
+def two_connections_case(res, W, rng, i):
+    from ..sim import sched
+    t1 = [round(rng.uniform(0.5, 4.0), 2) for _ in range(rng.randrange(1, 3))]
+    t2 = [round(rng.uniform(0.2, 4.5), 2) for _ in range(rng.randrange(1, 4))]
+    timeout = rng.choice([None, 6.0])
+    out = {}
+
+    def scen():
+        S = sched.CURRENT
+        conns = []
+        for times, tag in ((t1, "a"), (t2, "b")):
+            w, conn, peer = H.connected_ws(timeout=timeout)
+            w.sock.os_nonblocking = True
+            msgs = []
+            for k, t in enumerate(sorted(times)):
+                body = f"{tag}{k}"
+                msgs.append(body)
+                fr = R.encode(R.TEXT, body.encode())
+                cut = rng.randrange(1, len(fr))
+                S.at(t, conn.deliver, fr[:cut])
+                S.at(t + 0.05, conn.deliver, fr[cut:])
+            conns.append((w, msgs))
+        got = {0: [], 1: []}
+
+        def reader(ix):
+            w, msgs = conns[ix]
+            for _ in msgs:
+                try:
+                    got[ix].append(("value", w.recv()))
+                except BaseException as e:  # noqa
+                    if isinstance(e, sched.SimAbort):
+                        raise
+                    got[ix].append(("exc", e))
+                    return
+        actors = [S.spawn(reader, ix, name=f"reader{ix}") for ix in (0, 1)]
+        S.block(lambda: all(a.state == sched.DONE for a in actors), None, why="join")
+        out["got"] = got
+        out["exp"] = {0: conns[0][1], 1: conns[1][1]}
+
+    S = sched.Sched(horizon=60, watchdog=60)
+    case = {"gen": "two-connections-os-nonblocking", "arrival_times_1": t1, "arrival_times_2": t2, "timeout": timeout}
+    res.case(("two-conn", tuple(t1), tuple(t2), timeout), nontrivial=True)
+    res.count("two_connection_runs")
+    try:
+        S.run(scen)
+    except sched.SimFailure as e:
+        if isinstance(e, sched.WatchdogExpired):
+            res.inconc("two-connections case: watchdog")
+        else:
+            res.violation("segmentation-dependent:hang", f"two connections read by two threads (OS-level non-blocking descriptors): {type(e).__name__}: {e}", case, seg_kind="two-connections")
+        return
+    for ix in (0, 1):
+        exp = [("value", m) for m in out["exp"][ix]]
+        got = [(k, v if k == "value" else type(v).__name__ + ": " + str(v)[:60]) for k, v in out["got"][ix]]
+        if got != exp:
+            res.violation("segmentation-dependent:unexpected-exception" if any(k == "exc" for k, _ in got) else "segmentation-dependent:value-mismatch",
+                          f"two connections read by two threads (OS-level non-blocking descriptors, timeout {timeout}): connection {ix + 1} delivered {got}, "
+                          f"its server sent {out['exp'][ix]} (the other connection's data arrived at {t2 if ix == 0 else t1})", case, seg_kind="two-connections")
+            return
+
+
+def one(res, W, stream, call, cuts, tplan, head_cuts, tag, eagain=None, pauses=False, tls=False, high_fd=False, half_closed=False):
     name, cf = call
     key = (stream, call)
     if key not in _pred_cache:
@@ -288,7 +355,11 @@ def one(res, W, stream, call, cuts, tplan, head_cuts, tag, eagain=None, pauses=F
         net.SimSocket.fd_base = 1100
         res.count("runs_with_descriptor_numbers_above_1024")
     try:
-        obs = H.run_recv_script(stream, script, segs=segs, ending="eof", head_cuts=head_cuts, timeout=5, nonblocking=pauses, tls=tls)
+        if half_closed and any(f.opcode == R.CLOSE for f in R.decode_all(stream)[0]):
+            half_closed = False  # the reference model describes the open state; after a close frame the two differ
+        if half_closed:
+            res.count("runs_in_half_closed_state")
+        obs = H.run_recv_script(stream, script, segs=segs, ending="eof", head_cuts=head_cuts, timeout=5, nonblocking=pauses, tls=tls, half_closed=half_closed)
     finally:
         net.SimSocket.fd_base = 10
     if tls:
@@ -297,12 +368,12 @@ def one(res, W, stream, call, cuts, tplan, head_cuts, tag, eagain=None, pauses=F
         res.count("nonblocking_runs")
         res.count("wouldblocks_observed", obs["wouldblocks"])
     issues, judged, unj = M.compare(pred, obs)
-    res.case((stream, call, tuple(cuts or ()), tuple(sorted((tplan or {}).items())), tuple(head_cuts or ()), eagain, pauses, tls, high_fd),
+    res.case((stream, call, tuple(cuts or ()), tuple(sorted((tplan or {}).items())), tuple(head_cuts or ()), eagain, pauses, tls, high_fd, half_closed),
              nontrivial=bool(cuts or tplan or head_cuts))
     res.count("timeouts_injected", ntimeouts)
     res.count("timeouts_observed", obs["timeouts"])
     res.count("kind:" + tag[1])
-    case = {"tag": tag, "stream": stream, "call": call, "cuts": cuts, "timeout_plan": tplan, "head_cuts": head_cuts, "eagain": eagain, "tls": tls, "high_fd": high_fd}
+    case = {"tag": tag, "stream": stream, "call": call, "cuts": cuts, "timeout_plan": tplan, "head_cuts": head_cuts, "eagain": eagain, "tls": tls, "high_fd": high_fd, "half_closed": half_closed}
     for kind, detail, fields in issues:
         res.violation("segmentation-dependent:" + kind, f"{tag}: {detail}", case, seg_kind=tag[1], **fields)
     if ntimeouts != obs["timeouts"] and not issues:
